@@ -15,6 +15,19 @@ class FrameError(Exception):
 
 
 # ----------------------------------------------------------------------------- checksums
+# ports the tool or the checks treat as server ports somewhere (defaults 443/44330, -p / -m values used by the checks)
+RESERVED_PORTS = {53, 443, 4433, 5555, 8080, 8443, 8444, 9000, 9001, 9443, 44330, 50001}
+
+
+def client_port(rng, lo=20000, hi=60000):
+    """an ephemeral client port: never a port that is (or, with the offsets the endpoint patterns add, becomes) one the
+    tool regards as a server port — with both ends on server ports the roles are ambiguous and no property claims them"""
+    while True:
+        p = lo + rng.randrange(hi - lo)
+        if not any(p + k in RESERVED_PORTS for k in range(0, 111)):
+            return p
+
+
 def ones_sum(b):
     if len(b) % 2:
         b = b + b"\0"
